@@ -11,5 +11,7 @@ def run(P, R, L):
     K.role3_levels(P, R, L)
     R.clause("PAIR-3", "file bounds are captured from the entries actually added to the table (flush and compaction)")
     K.pair3(P, R, L)
+    R.clause("OWN-8", "file numbers are unique: who writes the counter, and in which direction")
+    K.own8_file_numbers(P, R, L)
     R.not_decided += ["disjointness / sortedness of a level for a concrete history (runtime assertion in VersionBuilder::maybe_add_file)",
                       "uniqueness of file numbers"]
